@@ -68,7 +68,7 @@ def read_hyps(year, terms, nonneg, cents=False):
             if cents and acc == 'v' and rng == z3.RealSort():
                 p = places_of(cat, full)
                 if p is not None:
-                    hyps.append(z3.IsInt(c * (10 ** p)))
+                    hyps.append(sym.decimal_fact(c, p))
         elif d.arity() == 1:
             if isnn:
                 hyps.append(z3.ForAll([n], d(n) >= 0))
